@@ -88,7 +88,8 @@ class Scenario:
                 if r < 0.55:
                     # ---- a transaction submission
                     kind = rng.choice(['valid', 'valid', 'valid', 'conflict', 'duplicate', 'no-outputs', 'zero-value',
-                                       'bad-signature', 'unknown-input', 'spent-input', 'overspend', 'two-inputs'])
+                                       'bad-signature', 'unknown-input', 'spent-input', 'overspend', 'two-inputs',
+                                       'later-input-bad-signature', 'later-input-bad-signature'])
                     avail = sorted(tg.spendable(head))
                     pooled_refs = set()
                     for t in pool_before:
@@ -119,6 +120,14 @@ class Scenario:
                             wrong = [pk for pk in keys.pks if pk != free[0][1][1]][0]
                             tx = chaingen.signed_tx(keys, head.utxo, [free[0][0]], [(free[0][1][0], keys.pks[1])],
                                                     sign_with={free[0][0]: wrong})
+                        elif kind == 'later-input-bad-signature' and len(free) >= 2:
+                            # several inputs, the first correctly signed, a LATER one (same key where possible) carrying a
+                            # well-formed signature made by another key
+                            same = [(a, b) for a in free for b in free if a[0] != b[0] and a[1][1] == b[1][1]]
+                            a_, b_ = same[0] if same else (free[0], free[1])
+                            wrong = [pk for pk in keys.pks if pk not in (a_[1][1], b_[1][1])][0]
+                            tx = chaingen.signed_tx(keys, head.utxo, [a_[0], b_[0]], [(a_[1][0] + b_[1][0], keys.pks[1])],
+                                                    sign_with={b_[0]: wrong})
                         elif kind == 'unknown-input':
                             ref = (bytes(rng.getrandbits(8) for _ in range(32)), 0)
                             tx = chaingen.signed_tx(keys, {ref: (9, keys.pks[0])}, [ref], [(9, keys.pks[1])])
@@ -205,8 +214,11 @@ class Scenario:
                     i = rng.randrange(len(sn.peers))
                     if not sn.connected(i):
                         continue
-                    sn.deliver(i, M.DataMessage(M.DATA_BLOCK, newn.block))
-                    events.append([0, idm(newn.id), idm(parent.id), newn.height, v[0], v[1], v[2], True])
+                    # a third of the head changes arrive as replies to the node's own block requests (bulk download: applied
+                    # without in-state validation, not yet flushed) -- a head change all the same
+                    irt = 0 if rng.random() < 0.67 else 63
+                    sn.deliver(i, M.DataMessage(M.DATA_BLOCK, newn.block), irt=irt)
+                    events.append([0, idm(newn.id), idm(parent.id), newn.height, v[0], v[1], v[2], irt == 0])
                     after = sn.observe()
                     new_head = byid[after['head']]
                     cs_now = sn.lp().chain_manager.coinstate
